@@ -76,9 +76,70 @@ def load(path: str) -> dict:
     if key in _CACHE:
         _register_typedefs(_CACHE[key])
         return _CACHE[key]
-    tu = _load(path)
+    tu = _load_disk_cached(path)
     _CACHE.clear()
     _CACHE[key] = tu
+    return tu
+
+
+_DISK = os.path.join(os.path.dirname(os.path.dirname(os.path.abspath(__file__))), ".cache", "cast")
+
+
+def _reduce(tu: dict) -> dict:
+    """Keep what the analyses use: functions defined in the unit, PyMethodDef tables, the typedef map."""
+    keep = []
+    for d in inner(tu):
+        if kind(d) == "FunctionDecl" and any(kind(c) == "CompoundStmt" for c in inner(d)) and not d.get("isImplicit"):
+            # header inline functions are kept too (cheap); analyses select by the method table
+            keep.append(d)
+        elif kind(d) == "VarDecl" and (d.get("type", {}).get("qualType", "")).startswith("PyMethodDef"):
+            keep.append(d)
+    tds = {}
+    for d in inner(tu):
+        if kind(d) == "TypedefDecl" and d.get("name"):
+            t = d.get("type", {})
+            tds[d["name"]] = t.get("desugaredQualType") or t.get("qualType") or ""
+    return {"kind": "TranslationUnitDecl", "inner": keep, "typedefs": tds, "reduced": True}
+
+
+def _load_disk_cached(path: str) -> dict:
+    """The parsed (and reduced) AST is cached under /verif/.cache keyed by the SHA-256 of the C source,
+    the include directory and the clang binary; any change of the source re-runs clang."""
+    import hashlib
+    import pickle
+
+    try:
+        with open(path, "rb") as f:
+            src = f.read()
+        cl, inc = find_clang(), python_include()
+        st_c = os.stat(cl)
+        st_h = os.stat(os.path.join(inc, "Python.h"))
+        h = hashlib.sha256()
+        for part in (src, cl.encode(), str((st_c.st_size, st_c.st_mtime_ns)).encode(), inc.encode(), str((st_h.st_size, st_h.st_mtime_ns)).encode(), b"v2"):
+            h.update(hashlib.sha256(part).digest())
+        fn = os.path.join(_DISK, h.hexdigest() + ".pickle")
+    except OSError:
+        fn = None
+    if fn and os.path.isfile(fn) and not os.environ.get("VT_NO_CACHE"):
+        try:
+            with open(fn, "rb") as f:
+                tu = pickle.load(f)
+            if isinstance(tu, dict) and tu.get("kind") == "TranslationUnitDecl":
+                _register_typedefs(tu)
+                return tu
+        except Exception:
+            pass
+    tu = _reduce(_load(path))
+    _register_typedefs(tu)
+    if fn and not os.environ.get("VT_NO_CACHE"):
+        try:
+            os.makedirs(_DISK, exist_ok=True)
+            tmp = fn + ".%d.tmp" % os.getpid()
+            with open(tmp, "wb") as f:
+                pickle.dump(tu, f, protocol=4)
+            os.replace(tmp, fn)
+        except OSError:
+            pass
     return tu
 
 
@@ -105,6 +166,9 @@ _TYPEDEFS: Dict[str, str] = {}
 
 def _register_typedefs(tu) -> None:
     """typedef name -> underlying type as reported by clang (used to resolve uint32_t, size_t, ...)."""
+    if isinstance(tu.get("typedefs"), dict):
+        _TYPEDEFS.update(tu["typedefs"])
+        return
     for d in inner(tu):
         if kind(d) == "TypedefDecl" and d.get("name"):
             t = d.get("type", {})
